@@ -2,6 +2,7 @@ package c03
 
 import (
 	"bufio"
+	"crypto/sha256"
 	"database/sql"
 	"encoding/json"
 	"fmt"
@@ -10,6 +11,7 @@ import (
 	"os"
 	"os/exec"
 	"path/filepath"
+	"sort"
 	"strconv"
 	"strings"
 	"sync"
@@ -358,6 +360,12 @@ func ltxKind(rel string) string {
 //	v <cmd>      victim command; "v? <cmd>" tolerates an err reply
 //	w <kind>     application transaction: small | big | multi | update | delete | ddl
 //	appckpt <m>  application-side wal_checkpoint(m)
+//	budget <k>   set the victim's MaxSyncWALBytes to k times the WAL bytes of the last application
+//	             transaction (0 = unlimited, -1 = a single frame)
+//
+// "v? snapshot-fail <k>" / "v? compact-fail <lvl> <k>" must be answered with err (the upload stream
+// is broken by the victim's wrapper after k bytes); around them the runner applies the oracle
+// "a failed write never removes or alters a previously listed replica file".
 //	rmmeta       remove the meta directory (victim must be down)
 //	save / rollback   copy db, db-wal and the meta directory aside / put them back (victim down)
 type Step struct {
@@ -429,6 +437,8 @@ type World struct {
 	Procs       []*Proc
 	// OutputExpect: restore output name -> the acknowledgement whose image it must equal
 	OutputExpect map[string]*Ack
+	// LastWALGrowth: bytes the last application transaction appended to the WAL
+	LastWALGrowth int64
 }
 
 func NewWorld(root, work string, cfg Config, seed int64, logf func(string, ...any)) (*World, error) {
@@ -444,7 +454,7 @@ func NewWorld(root, work string, cfg Config, seed int64, logf func(string, ...an
 		return nil, fmt.Errorf("create db: %w", err)
 	}
 	w.App = app
-	if _, err := app.Exec(`CREATE TABLE t(id INTEGER PRIMARY KEY, v BLOB); CREATE TABLE u(id INTEGER PRIMARY KEY, a INTEGER, v BLOB);`); err != nil {
+	if _, err := app.Exec(`CREATE TABLE t(id INTEGER PRIMARY KEY, v BLOB); CREATE TABLE u(id INTEGER PRIMARY KEY, a INTEGER, v BLOB); CREATE TABLE f(id INTEGER PRIMARY KEY, v BLOB);`); err != nil {
 		return nil, err
 	}
 	return w, nil
@@ -469,6 +479,8 @@ func (w *World) blob(n int) []byte {
 
 // AppWrite commits one application transaction of the given shape.
 func (w *World) AppWrite(kind string) error {
+	before := fileSize(w.VC.DBPath() + "-wal")
+	defer func() { w.LastWALGrowth = fileSize(w.VC.DBPath()+"-wal") - before }()
 	tx, err := w.App.Begin()
 	if err != nil {
 		return err
@@ -487,6 +499,8 @@ func (w *World) AppWrite(kind string) error {
 		_, ex = tx.Exec(`UPDATE t SET v=? WHERE id%2=1`, w.blob(200))
 	case "delete":
 		_, ex = tx.Exec(`DELETE FROM t WHERE id%2=0`)
+	case "fixed": // always the same pages: equal-sized transactions (same number of WAL frames)
+		_, ex = tx.Exec(`INSERT INTO f(id,v) VALUES(1,?) ON CONFLICT(id) DO UPDATE SET v=excluded.v`, w.blob(9000))
 	case "ddl":
 		_, ex = tx.Exec(fmt.Sprintf(`CREATE TABLE x%d(id INTEGER PRIMARY KEY, a)`, w.K))
 		if ex == nil {
@@ -507,6 +521,38 @@ func (w *World) AppWrite(kind string) error {
 	}
 	w.K++
 	return nil
+}
+
+func fileSize(p string) int64 {
+	fi, err := os.Stat(p)
+	if err != nil {
+		return 0
+	}
+	return fi.Size()
+}
+
+// OracleError is a refuting observation made by the scenario runner itself (not a harness
+// problem): checks turn it into a violation with Key.
+type OracleError struct{ Key, Msg string }
+
+func (e *OracleError) Error() string { return e.Msg }
+
+// replicaListing maps every *.ltx file under the replica to a content hash.
+func (w *World) replicaListing() map[string]string {
+	out := map[string]string{}
+	_ = filepath.Walk(w.VC.RepPath(), func(p string, fi os.FileInfo, err error) error {
+		if err != nil || fi.IsDir() || !strings.HasSuffix(p, ".ltx") {
+			return nil
+		}
+		b, err := os.ReadFile(p)
+		if err != nil {
+			return nil
+		}
+		rel, _ := filepath.Rel(w.VC.RepPath(), p)
+		out[rel] = fmt.Sprintf("%d:%x", len(b), sha256.Sum256(b))
+		return nil
+	})
+	return out
 }
 
 func (w *World) SourceImage() ([]byte, error) { return sq.SourceImage(w.VC.DBPath(), w.Work) }
@@ -630,9 +676,31 @@ func (w *World) Run(steps []Step, from int) (int, error) {
 					w.OutputExpect[f[1]] = &cp
 				}
 			}
+			isFail := strings.HasPrefix(line, "snapshot-fail") || strings.HasPrefix(line, "compact-fail")
+			var listed map[string]string
+			if isFail {
+				listed = w.replicaListing()
+			}
 			reply, alive, err := w.P.Do(line)
 			if err != nil {
 				return i, err
+			}
+			if isFail && alive {
+				if !strings.HasPrefix(reply, "err ") {
+					return i, fmt.Errorf("step %q: the injected stream failure did not make the operation fail: %s", line, reply)
+				}
+				now := w.replicaListing()
+				var gone []string
+				for name, h := range listed {
+					if now[name] != h {
+						gone = append(gone, name)
+					}
+				}
+				if len(gone) > 0 {
+					sort.Strings(gone)
+					w.Logf("v %s -> %s", line, reply)
+					return i, &OracleError{Key: "failed-write-removed-published-file", Msg: fmt.Sprintf("%q failed (%s) and afterwards previously listed replica file(s) %v are gone or altered", line, strings.TrimSpace(reply), gone)}
+				}
 			}
 			if !alive {
 				w.Logf("v %s -> victim gone", line)
@@ -666,6 +734,26 @@ func (w *World) Run(steps []Step, from int) (int, error) {
 			var a, b, c int
 			err := w.App.QueryRow(`PRAGMA wal_checkpoint(`+s.Arg+`)`).Scan(&a, &b, &c)
 			w.Logf("app wal_checkpoint(%s) busy=%d log=%d ckpt=%d err=%v", s.Arg, a, b, c, err)
+		case "budget":
+			if w.P == nil {
+				return i, fmt.Errorf("budget without a victim")
+			}
+			k, _ := strconv.Atoi(s.Arg)
+			n := int64(k) * w.LastWALGrowth
+			if k < 0 {
+				n = 1
+			}
+			if k > 0 && w.LastWALGrowth <= 0 {
+				return i, fmt.Errorf("budget: last application transaction did not grow the WAL")
+			}
+			reply, alive, err := w.P.Do(fmt.Sprintf("max-sync-wal %d", n))
+			if err != nil {
+				return i, err
+			}
+			if !alive {
+				return i, ErrVictimGone
+			}
+			w.Logf("MaxSyncWALBytes = %d (%d x %d bytes per transaction) -> %s", n, k, w.LastWALGrowth, reply)
 		case "rmmeta":
 			if w.P != nil {
 				return i, fmt.Errorf("rmmeta with a running victim")
